@@ -153,3 +153,13 @@ impl<T: RecognizerReadable> ReconDecoder<T> {
         self.decoder.reset();
     }
 }
+
+/// Verification hooks: re-exports of internal components for the model checking harness.
+#[cfg(swimos_verif)]
+pub mod verif_hooks {
+    pub use crate::event_queue::{to_operation, EventQueue};
+    pub use crate::lanes::verif_hooks::*;
+    pub use crate::map_storage::{
+        drop_or_take, DropOrTake, MapEventQueue, MapOps, MapStoreInner, TransformEntryResult,
+    };
+}
